@@ -71,6 +71,7 @@ fn main() {
         "C13" => rig::props::c13::main(tier, replay),
         "C14" => rig::props::c14::main(tier, replay),
         "C19" => rig::props::c19::main(tier, replay),
+        "C20" => rig::props::c20::main(tier, replay),
         "C08" => rig::props::c08::main(tier, replay),
         "C15" => rig::props::c15::main(tier, replay),
         "C16" => rig::props::c16::main(tier, replay),
